@@ -254,6 +254,12 @@ def check(prop, tier, seed):
         def field(s, k):
             m = re.search(rf"\b{k}=(\S+)", s)
             return m.group(1) if m else ""
+        def sig_ok(k, site, reason, detail):
+            """a listed finding with recorded [got, want, bg] triples covers only those triples"""
+            sg = (k.get("sigs") or {}).get(f"{site}|{reason}")
+            if not sg:
+                return True
+            return [field(detail, "got"), field(detail, "want"), field(detail, "bg")] in sg
         known_hit = {}
         unlisted = []
         for feat, sid, detail in fails:
@@ -265,6 +271,7 @@ def check(prop, tier, seed):
                 ctx_ok = ("ctx" not in k) or (field(detail, "ctx") in k["ctx"])
                 # optional narrowing on the failure detail (e.g. one background colour only)
                 ctx_ok = ctx_ok and (("match" not in k) or re.search(k["match"], detail) is not None)
+                ctx_ok = ctx_ok and sig_ok(k, site, reason, detail)
                 if any(fnmatch.fnmatchcase(site, s_) for s_ in sites) and reason in reasons and ctx_ok:
                     hit = k
                     break
@@ -303,7 +310,8 @@ def check(prop, tier, seed):
                     site, reason = field(parts[4], "site"), field(parts[4], "reason")
                     listed = any((any(fnmatch.fnmatchcase(site, s_) for s_ in (k.get("sites") or [k["site"]])) and reason in (k.get("reasons") or [k["reason"]])
                                   and (("ctx" not in k) or field(parts[4], "ctx") in k["ctx"])
-                                  and (("match" not in k) or re.search(k["match"], parts[4]) is not None)) for k in known)
+                                  and (("match" not in k) or re.search(k["match"], parts[4]) is not None)
+                                  and sig_ok(k, site, reason, parts[4])) for k in known)
                     if not listed:
                         unlisted.append(("v3", parts[1], parts[4]))
         if unlisted:
